@@ -266,6 +266,25 @@ class Check(BaseCheck):
                 o1, o2 = a.run('foo&tagv'), b.run('foo&tagv')
                 if o1 == o2:
                     rec.violation('C03/parsers-share-variable-values', a=a.tag, b=b.tag, outcome=o1)
+        # a variable whose NAME is shaped like a cell reference, registered on one parser, must not change what that spelling
+        # means on another parser (there it is a cell, delivered by that parser's listener)
+        hotxlfp = env.load()
+        for nm in ('Q1', 'AB12', 'x9', 'tax2020', 'Z99'):
+            A, B = hotxlfp.Parser(), hotxlfp.Parser()
+            B.on('callCellValue', lambda c, s: s(c.row.index + 100))
+            B.on('callRangeValue', lambda a, b, s: s([1, 2, 3]))
+            before = (B.parse('%s*2' % nm), B.parse('SUM(%s:%s)' % (nm, nm)))
+            A.set_variable(nm, 5)
+            A.parse(nm)
+            after = (B.parse('%s*2' % nm), B.parse('SUM(%s:%s)' % (nm, nm)))
+            C = hotxlfp.Parser()
+            C.on('callCellValue', lambda c, s: s(c.row.index + 100))
+            C.on('callRangeValue', lambda a, b, s: s([1, 2, 3]))
+            later = (C.parse('%s*2' % nm), C.parse('SUM(%s:%s)' % (nm, nm)))
+            rec.case()
+            rec.nt(('cellshaped', nm))
+            if before != after or before != later:
+                rec.violation('C03/cell-shaped-variable-name-on-one-parser-changes-another', name=nm, other_parser_before=before, other_parser_after=after, new_parser=later)
         # a custom function registered under a built-in name on ONE parser: that parser gets its own function, every other
         # parser keeps the built-in, in whatever order they are used (sequentially and nested)
         hotxlfp = env.load()
